@@ -150,6 +150,9 @@ void h_time_roundtrip(void)
 {
 	uint64_t t = nondet_u64();
 	ASSUME(t <= TMAX);
+#ifdef TMIN
+	ASSUME(t >= TMIN);
+#endif
 	int utc = nondet_bool();
 	char str[16]; memset(str, 0, sizeof(str));
 	int r = asn1_time_to_str(utc, (time_t)t, str);
